@@ -283,6 +283,9 @@ func runInflight(res *lp.Result, prop string) {
 				id := 0
 				if prop == "C09" && rng.Intn(10) == 0 {
 					id = 1 + rng.Intn(n+3)
+					if id > 32767 {
+						id = 32767 // stream ids are int16
+					}
 				}
 				ops = append(ops, infOp{kind: "send", id: id})
 				handles++
